@@ -11,7 +11,7 @@ Decided for every abstract configuration (K ∈ {None, vector, matrix} × baseli
   R-SIGN       a Parameter declared positive never receives target − baseline
 Not decided: global optimality, bounds respected to tolerance, solver accuracy."""
 from __future__ import annotations
-from ..spec import lsq_inputs, const, none, opaque, arr, estimator_fields, S, U_REL, U_INT, U_CAPTURE
+from ..spec import rel_axis, lsq_inputs, const, none, opaque, arr, estimator_fields, S, U_REL, U_INT, U_CAPTURE
 from .. import rules as R
 from ..values import Shape
 from .common import LSQ, opts, base_kws, cfgname, lsq_configs
@@ -44,25 +44,25 @@ def check(rep, an, tier):
             | ({"baseline"} if cfg["baseline"] else set())
         F.flow_objective(rep, res, entry, need)
         F.flow_constraints(rep, res, entry, {"lb"} | ({"ub"} if cfg["ub"] == "finite" else set()))
+        F.must_constraint(rep, res, entry, "lb", "lower bound")
+        if cfg["ub"] == "finite":
+            F.must_constraint(rep, res, entry, "ub", "upper bound")
         F.solve_kwargs(rep, res, entry)
         F.qty(rep, res, entry)
         F.count_typed(rep, res, entry)
         urel = U_REL if cfg["K"] else U_CAPTURE
         F.return_types(rep, res, entry, [("X", S("N", "SRC"), U_INT, None),
-                                         ("prediction", S("N", "F"), urel, "TOTAL" if cfg["baseline"] else None)])
+                                         ("prediction", S("N", rel_axis(cfg["K"])), urel, "TOTAL" if cfg["baseline"] else None)])
         F.pred_from_X(rep, res, entry)
         F.sign_attrs(rep, res, entry)
-        R.rule_type_errors(rep, res, "SHAPE", "R-SHAPE", entry)
-        R.rule_value(rep, res, entry)
-        R.rule_refresh(rep, res, entry)
-        R.rule_purity(rep, res, entry)
+        F.hygiene(rep, res, entry)
         R.rule_rowsep(rep, res, entry)
     # estimator wrapper
     for Kk in (["vec", "mat"] if tier == "quick" else ["vec", "mat", "scalar"]):
         for internal in (False, True):
             fields = estimator_fields(K=Kk if Kk != "scalar" else None, baseline="vec")
             kw = dict(model=const("gaussian"), batch_size=lsq_inputs()["batch_size"], verbose=const(0))
-            kw["B"] = none() if internal else arr("B", S("N", "F"), U_REL, "TOTAL")
+            kw["B"] = none() if internal else arr("B", S("N", rel_axis(Kk)), U_REL, "TOTAL")
             kw["solver_opt"] = opaque("solver_opt")
             res = an.run(f"{EST}.fit", kws=kw, self_fields=fields, config=f"K={Kk},internal={internal}")
             entry = "ReceptorEstimator.fit[gaussian]"
